@@ -334,6 +334,54 @@ func VerifyLemma(p *Program, cs *ContractSet, lm *Lemma) ([]*Obligation, []strin
 			nshow++
 			obls = append(obls, &Obligation{Name: name, Kind: "lemma", Props: lm.Props, Query: b.String(), Clause: st.Text, Where: fmt.Sprintf("%s:%d", lm.File, st.Line)})
 			pc = append(pc, tv.T)
+		case "use":
+			ul := cs.LemmaByName(st.Callee)
+			if ul == nil {
+				return nil, nil, fmt.Errorf("lemma %s: unknown lemma %s", lm.Name, st.Callee)
+			}
+			// instantiate: (ranges and assumes)(args) ==> shows(args)
+			uenv := &Env{u: u, vars: map[string]TV{}, bound: map[string]string{}, lets: map[string]*Expr{}}
+			var hyp, concl []string
+			ai := 0
+			for _, us := range ul.Steps {
+				switch us.Kind {
+				case "vars":
+					for _, v := range us.Vars {
+						if ai >= len(st.Args) {
+							return nil, nil, fmt.Errorf("lemma %s: too few arguments for %s", lm.Name, st.Callee)
+						}
+						s, lo, hi := u.sortFromTypeName(v.Type)
+						tv, err := env.Translate(st.Args[ai], s)
+						if err != nil {
+							return nil, nil, fmt.Errorf("lemma %s: %v", lm.Name, err)
+						}
+						ai++
+						uenv.vars[v.Name] = tv
+						if lo != "" {
+							hyp = append(hyp, "(<= "+lo+" "+tv.T+")")
+						}
+						if hi != "" {
+							hyp = append(hyp, "(<= "+tv.T+" "+hi+")")
+						}
+					}
+				case "assume":
+					tv, err := uenv.Translate(us.E, "Bool")
+					if err != nil {
+						return nil, nil, fmt.Errorf("lemma %s: %v", lm.Name, err)
+					}
+					hyp = append(hyp, tv.T)
+				case "show":
+					tv, err := uenv.Translate(us.E, "Bool")
+					if err != nil {
+						return nil, nil, fmt.Errorf("lemma %s: %v", lm.Name, err)
+					}
+					concl = append(concl, tv.T)
+				default:
+					return nil, nil, fmt.Errorf("lemma %s: lemma %s cannot be used (it has %s steps)", lm.Name, st.Callee, us.Kind)
+				}
+			}
+			pc = append(pc, implies(and(hyp...), and(concl...)))
+			used = append(used, "lemma:"+st.Callee)
 		case "call":
 			key := resolveCallee(cs, lm.Pkg, st.Callee)
 			ct := cs.ByKey[key]
